@@ -18,7 +18,8 @@ with that same path;
 (d) new_for_include: the origin is the directive's when given, and every other context field (previous owner, TTL,
 class, default TTL) is the includer's; without an origin the whole context is cloned;
 (e) when an included file ends, its parser is popped and -- if a parent remains -- the parent's context takes every
-field from the included file's final context except the origin, which stays the parent's own; then parsing continues
+field from the included file's final context except the origin, which stays the parent's own, unconditionally (the
+hand-over dominates every return of update_context_from_include); then parsing continues
 with the parent; an empty stack ends the iteration.
 Not decided: equivalence with textual inclusion on arbitrary file trees.
 """
@@ -117,6 +118,12 @@ def check(R, F):
         f = dict(zip(ctxs[0]['rv']['fields'], [paths.show_operand(up, o) for o in ctxs[0]['rv']['ops']]))
         ok = f == {'origin': 'Option<T>::clone(arg1.context.origin)', 'previous_owner': 'arg2.context.previous_owner', 'previous_ttl': 'arg2.context.previous_ttl', 'previous_class': 'arg2.context.previous_class', 'default_ttl': 'arg2.context.default_ttl'}
     R.require(ok, 'context', up.gpath + '|origin-restored', up.where(), 'origin stays the includer\'s, everything else comes from the included file', 'update_context_from_include builds %s' % (f if ctxs else None))
+    # ... and on every path: a conditional hand-over (seed C25-e: skipped when the previous owner is unchanged) drops the
+    # $TTL / last TTL / last class an include sets without introducing a new owner
+    aggb = [b for b, bl in enumerate(up.blocks) if not bl['cleanup'] for st in bl['stmts'] if st['k'] == 'assign' and st['rv']['k'] == 'agg' and st['rv']['def'].endswith('zone_file::Context')]
+    rets = [b for b in up.reachable(0) if not up.blocks[b]['cleanup'] and up.blocks[b]['term']['k'] == 'ret']
+    ok = len(aggb) == 1 and bool(rets) and all(up.dominates(aggb[0], r) for r in rets)
+    R.require(ok, 'context', up.gpath + '|unconditional', up.where(), 'the hand-over of the included file\'s context lies on every path to the return', 'update_context_from_include can return without taking over the included file\'s context (a return not dominated by the Context construction)')
     R.floor('include', 4)
     R.floor('depth', 2)
     R.floor('path', 3)
